@@ -83,3 +83,23 @@ Theorem block_soft_thresholding_total : forall (x : list R) u, 0 <= u ->
   exists r, @BST__positive_False R _ x u = Ok r /\ length r = length x.
 Proof. exact BST_plain_total. Qed.
 Print Assumptions block_soft_thresholding_total.
+
+(* block soft-thresholding is a GLOBAL minimiser of v -> 1/2 ||v - x||^2 + u ||v||_2, for every x (any length, the zero
+   vector included) and every u >= 0: the prox of the multitask row penalty (L2_1) and of the group-lasso penalty
+   (WeightedGroupL2 without positivity) as regenerated from the source *)
+Require Import SK.Gen.PenBlock SK.Lemmas.ProxBlock.
+Theorem bst_is_global_prox_minimiser : forall (x : list R) u r, 0 <= u -> @BST__positive_False R _ x u = Ok r ->
+  length r = length x /\ forall v, length v = length x -> bobj x u r <= bobj x u v.
+Proof. exact BST_plain_optimal. Qed.
+Print Assumptions bst_is_global_prox_minimiser.
+Theorem l21_prox_is_global_minimiser : forall alpha (x : list R) s j r, 0 <= alpha * s ->
+  @L2_1_prox_1feat R _ alpha x s j = Ok r ->
+  length r = length x /\ forall v, length v = length x -> bobj x (alpha * s) r <= bobj x (alpha * s) v.
+Proof. exact L2_1_prox_optimal. Qed.
+Print Assumptions l21_prox_is_global_minimiser.
+Theorem group_lasso_prox_is_global_minimiser : forall alpha weights (x : list R) s g wg r,
+  get_idx weights g = Ok wg -> 0 <= alpha * s * wg ->
+  @WeightedGroupL2_prox_1group R _ alpha weights false x s g = Ok r ->
+  length r = length x /\ forall v, length v = length x -> bobj x (alpha * s * wg) r <= bobj x (alpha * s * wg) v.
+Proof. exact WeightedGroupL2_prox_optimal. Qed.
+Print Assumptions group_lasso_prox_is_global_minimiser.
